@@ -448,3 +448,57 @@ func VerifCronChainPerEntry() {
 	<-ctx.Done()
 	zzverif.Cover("cron_chain_per_entry_done")
 }
+
+// vZoneEvery: a schedule whose activation instants depend on the zone of the instant it is asked about (as
+// SpecSchedule's do: fields are matched in t.Location()); it records whether every instant handed to Next was
+// expressed in the expected zone.
+type vZoneEvery struct {
+	period time.Duration
+	zone   *time.Location
+	bad    *int
+}
+
+func (s vZoneEvery) Next(t time.Time) time.Time {
+	if t.Location() != s.zone {
+		zzverif.Ghost(func() { *s.bad++ })
+	}
+	return t.Add(s.period)
+}
+
+// WithLocation: the clock reports instants in another zone than the cron's; every instant the scheduler hands to a
+// schedule - when the entry is added, at Start, and after every wake-up - is expressed in the cron's location, so
+// that zone-relative schedules activate at the instants of THAT zone (and Entries reports them).
+//
+//verif:harness prop=C05 name=cron_location threads=5 sched=delay preempt=1 t_preempt=2 unwind=12 witness=lenient
+func VerifCronLocation() {
+	start := zzverif.TimeFromNanos(1_000_000_000_000)
+	clk := zzverifstubs.NewClock(start)
+	jobs := &vJobs{block: make(chan struct{}), clk: clk}
+	zone := new(time.Location)
+	c := New(WithClock(clk), WithLogger(vLogger{}), WithLocation(zone))
+	zzverif.Assert(c.Location() == zone, "location_reported")
+	bad := 0
+	p := time.Duration(1+zzverif.Choose("period", 2)) * time.Second
+	addBeforeStart := zzverif.Bool("add_before_start")
+	if addBeforeStart {
+		c.Schedule(vZoneEvery{p, zone, &bad}, jobs.job(1, false))
+	}
+	c.Start()
+	zzverif.WaitQuiescent()
+	if !addBeforeStart {
+		c.Schedule(vZoneEvery{p, zone, &bad}, jobs.job(1, false))
+		zzverif.WaitQuiescent()
+	}
+	t0 := clk.Now()
+	for k := 1; k <= 3; k++ {
+		clk.AdvanceTo(t0.Add(time.Duration(k) * p))
+		zzverif.WaitQuiescent()
+		zzverif.Assert(jobs.count(1) == k, "one_start_per_activation")
+		zzverif.Assert(bad == 0, "schedule_asked_in_cron_location")
+		es := c.Entries()
+		zzverif.Assert(len(es) == 1 && es[0].Next.Equal(t0.Add(time.Duration(k+1)*p)), "entries_next_is_the_activation_used")
+	}
+	ctx := c.Stop()
+	<-ctx.Done()
+	zzverif.Cover("cron_location_done")
+}
